@@ -599,6 +599,19 @@ def _hyp_ctor(it, cls, args, kw):
         a0 = AArr(d0.shape[:-1] + (2, d0.shape[-1]))
     if not isinstance(a0, AArr):
         raise Unsupported(f"constructor {cls.name} of {a0!r}")
+    if cls.name == "Hyperplane":
+        sh = a0.shape
+        if len(sh) >= 2 and sh[-1] == sh[-2]:
+            return AObj(cls, proj=a0, unit_ndims=2)
+        if len(sh) == 1 or (len(sh) >= 2 and sh[-2] == 1):
+            # normal vector(s): (n,) or (..., 1, n)
+            outer = sh[:-2] if len(sh) >= 2 else ()
+            return AObj(cls, proj=AArr(outer + (sh[-1], sh[-1])),
+                        unit_ndims=2)
+        raise ShapeError(f"Hyperplane built from an array of shape {sh}: "
+                         "neither (..., n, n) hyperplane data nor (..., 1, n)"
+                         " normals (an (k, n) stack of normals is read as "
+                         "the data of ONE hyperplane when k == n)")
     model = kw.get("model", args[1] if len(args) > 1 and isinstance(
         args[1], str) else "Model.PROJECTIVE")
     sh = a0.shape
@@ -696,6 +709,23 @@ def _sh5_table():
               {}, lambda O: ("obj", O + (3,))))
     t.append(("TangentVector.origin_to", tv3, "origin_to", [], {},
               lambda O: ("obj", O + (3, 3))))
+    iso = dict(cls="Isometry", proj=("n", "n"), und=2)
+    iso3 = dict(cls="Isometry", proj=(3, 3), und=2)
+    for flag in (True, False):
+        t.append((f"Isometry.fixed_point_pair(sort_eigvals={flag})", iso,
+                  "fixed_point_pair", [flag], {},
+                  lambda O: ("obj", O + (2, "n"))))
+        t.append((f"Isometry.fixed_point(max_eigval={flag})", iso,
+                  "fixed_point", [flag], {}, lambda O: ("obj", O + N)))
+    t.append(("Isometry.axis", iso, "axis", [], {},
+              lambda O: ("obj", O + (2, "n"))))
+    t.append(("Hyperplane.from_reflection", dict(cls="Hyperplane",
+              static=True), "from_reflection", [iso], {},
+              lambda O: ("obj", O + ("n", "n"))))
+    t.append(("Geodesic.from_reflection", dict(cls="Geodesic", static=True),
+              "from_reflection", [iso3], {}, lambda O: ("obj", O + (2, 3))))
+    t.append(("Subspace.reflection_across", geo3, "reflection_across", [],
+              {}, lambda O: ("obj", O + (3, 3))))
     pt3 = dict(cls="Point", proj=(3,), und=1)
     t.append(("Point.origin_to", pt3, "origin_to", [], {},
               lambda O: ("obj", O + (3, 3))))
@@ -749,15 +779,17 @@ def rule_sh5(ctx, only=None):
         for O in outers:
             total += 1
 
-            def mk():
-                return AObj(cls, proj=AArr(O + spec["proj"]),
-                            aux=AArr(O + spec["aux"]) if "aux" in spec
-                            else None, unit_ndims=spec["und"],
-                            aux_ndims=spec.get("aund", 0))
-            a = [mk() if x == "@same" else AArr(O) if x == "@outer" else x
-                 for x in args]
+            def mk(sp=spec, c=cls):
+                return AObj(c, proj=AArr(O + sp["proj"]),
+                            aux=AArr(O + sp["aux"]) if "aux" in sp
+                            else None, unit_ndims=sp["und"],
+                            aux_ndims=sp.get("aund", 0))
+            a = [mk() if x == "@same" else AArr(O) if x == "@outer" else
+                 mk(x, ctx.p.get_class(HYP, x["cls"])) if isinstance(x, dict)
+                 else x for x in args]
             try:
-                got = it.call_node(f.node, [mk()] + a, dict(kw))
+                got = it.call_node(f.node, ([] if spec.get("static")
+                                            else [mk()]) + a, dict(kw))
                 w = want(O)
                 if w and w[0] == "obj":
                     gs = got.proj_data.shape if isinstance(got, AObj) \
